@@ -276,13 +276,13 @@ def ref_apply(
                 errs.add("EngineError")
         if sql and (val.psort or other.psort):
             errs.add("RelationalAlgebraError")
+        if fixed_common is not None and not (set(fixed_common) <= lhs.cols and set(fixed_common) <= rhs.cols):
+            errs.add("ColumnError")  # explicitly requested common columns missing from an operand
         if errs:
             raise RefReject(errs, "join")
         common = sorted(c for c in lhs.cols & rhs.cols if A.is_key(c))
         if fixed_common is not None:
-            # join whose common columns were resolved earlier (a PartialJoin handed back by commute())
-            if not (set(fixed_common) <= lhs.cols and set(fixed_common) <= rhs.cols):
-                raise RefReject({"ColumnError"}, "join: resolved common columns missing")
+            # join whose common columns were fixed by the caller (or resolved earlier: a PartialJoin handed back by commute())
             common = sorted(fixed_common)
         shared_other = sorted((lhs.cols & rhs.cols) - set(common))
         out = []
@@ -321,8 +321,11 @@ def ref_apply(
 
 
 def scen_operand(self_val: RefVal, operand, scen: Scenario) -> RefVal:
-    if operand == ("self",):
-        return self_val
+    if operand[0] == "self":
+        val = self_val
+        for op in operand[1:]:
+            val = ref_apply(val, op, scen, None)
+        return val
     return ref_run(operand, scen)
 
 
